@@ -33,6 +33,11 @@ class CallMixin:
             sf = getattr(self, "spec_" + node.func.id, None)
             if sf is not None and node.func.id not in frame.locals:
                 return sf(node, frame)
+        if isinstance(node.func, ast.Name) and node.func.id == "next" and "next" not in frame.locals and node.args \
+                and isinstance(node.args[0], ast.GeneratorExp) and len(node.args[0].generators) == 1 and not node.keywords:
+            r_ = self.next_first_match(node, frame)
+            if r_ is not None:
+                return r_
         fn = self.eval(node.func, frame)
         args = []
         for a in node.args:
@@ -66,6 +71,67 @@ class CallMixin:
                 kwargs[kw.arg] = self.eval(kw.value, frame)
         return self.call_value(fn, args, kwargs, node, frame)
 
+    def next_first_match(self, node, frame):
+        """next((elt for x in L if c(x)), default) over a symbolic list of objects (or reversed(L)): the first element in iteration order
+        that satisfies the filters.  `no earlier element matches` is a universal fact, instantiated on every element of L that is (or later
+        becomes) materialised on the path -- e.g. at a ghost index in a postcondition."""
+        run = self.run
+        gnode = node.args[0]
+        g = gnode.generators[0]
+        if not isinstance(g.target, ast.Name):
+            return None
+        it = self.force(self.eval(g.iter, frame))
+        rev, base = False, it
+        if isinstance(it, VTuple) and it.items and isinstance(it.items[0], VStr) and E.simp(it.items[0].t).as_string() == "#reversed":
+            rev, base = True, self.force(it.items[1])
+        if not (isinstance(base, VRef) and base.kind == "list"):
+            return None
+        r = run.rec(base.oid)
+        if r.concrete or r.elem[0] != "obj" or r.arr is not None or r.appended:
+            return None
+        var = g.target.id
+        n = r.length
+        shift = r.shift
+
+        def conds_at(x):
+            f2 = E.Frame(frame.relpath, frame.ci, {var: x}, frame, frame.fname)
+            self.pure += 1
+            try:
+                return z3.And([self.truthy(self.eval(c, f2)) for c in g.ifs]) if g.ifs else z3.BoolVal(True)
+            finally:
+                self.pure -= 1
+        w = z3.Int(run.fresh_name("first"))
+        run.inputs[str(w)] = w
+        found = run.choose([("found", z3.And(w >= 0, w < n)), ("exhausted", None)], "next(" + ast.unparse(gnode)[:40] + ")") == 0
+        x = None
+        if found:
+            x = self.symlist_elem(base, r, w)
+            run.assume(conds_at(x))
+        w_e = E.simp(w + shift) if not isinstance(shift, int) or shift else w
+        lo_e = E.simp(z3.IntVal(0) + shift) if not isinstance(shift, int) or shift else z3.IntVal(0)
+
+        def inst(elemref, epos):
+            # element `epos` of the underlying list is visited before the match (or at all, when nothing matched): it does not match
+            rng = z3.And(epos >= lo_e, epos < lo_e + n)
+            if found:
+                rng = z3.And(rng, (epos > w_e) if rev else (epos < w_e))
+            run.assume(z3.Implies(rng, z3.Not(conds_at(elemref))), persist=True)
+        ent = [inst, set()]
+        if not hasattr(run, "index_facts"):
+            run.index_facts = {}
+        run.index_facts.setdefault(r.sym, []).append(ent)
+        run.abstractions.append("first-match facts of next(...) are instantiated per materialised element, on the element's state at instantiation time")
+        for (qterm, qname) in list(run.elem_index.get(r.sym, [])):
+            if qname in run.sym_oids and qname not in ent[1]:
+                ent[1].add(qname)
+                inst(self.sym_ref(qname, "obj", r.elem[1], None), qterm)
+        if found:
+            f2 = E.Frame(frame.relpath, frame.ci, {var: x}, frame, frame.fname)
+            return self.eval(gnode.elt, f2)
+        if len(node.args) > 1:
+            return self.eval(node.args[1], frame)
+        raise E.PyExc(VExc("StopIteration"), "next() on an exhausted generator")
+
     def is_havocked_callee(self, fn):
         if isinstance(fn, VCallback) or (isinstance(fn, VBound) and isinstance(fn.recv, VCallback)):
             return True
@@ -81,6 +147,7 @@ class CallMixin:
         raise E.Unsupported("** of symbolic mapping")
 
     def call_value(self, fn, args, kwargs, node=None, frame=None):
+        fn = self.force(fn)
         if isinstance(fn, VFunc):
             return self.call_function(fn, args, kwargs)
         if isinstance(fn, VBound):
@@ -177,6 +244,7 @@ class CallMixin:
         return NONE
 
     def call_method(self, recv, name, args, kwargs, node=None, frame=None):
+        recv = self.force(recv)
         if isinstance(recv, VRef) and recv.kind == "obj":
             rec = self.run.rec(recv.oid)
             ci = self.repo.find_class(rec.cls)
